@@ -1865,7 +1865,7 @@ struct Value {
             groupedValue.reset();
             groupedValue.setTypeToObject();
 
-            if ((item_ != nullptr) && item_->isObject() && item_->object_.Has(key, length)) {
+            if (array_.IsNotEmpty() && item_->isObject() && item_->object_.Has(key, length)) {
                 const Value *end = array_.End();
 
                 while (item_ != end) {
